@@ -356,6 +356,65 @@ fn iss_confusion(alg: Alg, fmt: Fmt, l: &mut Local) {
     }
 }
 
+pub fn iss_alphabet() -> Vec<&'static str> {
+    vec![
+        "https://i.example", "https://i.example/", "https://i.example//", " https://i.example", "https://i.example ", "HTTPS://I.EXAMPLE", "https://i.example/.", "https://i.example/%2F",
+        "https://i.example?x", "https://i.example#f", "http://i.example", "i", "", "\u{e9}", "i\u{0}", "https://i.example:443", "https://I.example",
+    ]
+}
+
+/// The resolver must be asked for exactly the iss string in the token, and a token claiming issuer y
+/// but signed by the key registered for a *related* issuer x must be rejected.
+fn iss_pairs(alg: Alg, fmt: Fmt, l: &mut Local) {
+    let names = iss_alphabet();
+    for (xi, x) in names.iter().enumerate() {
+        // exact-argument clause + control
+        let claims = json!({"iss": x, "exp": gen::EXP, "a": 1});
+        let mut issuer = drive::new_issuer(keys::issuer_enc(alg, 0), Some(alg.name()));
+        let Out::Ok(sd) = drive::issue(&mut issuer, &claims, &Strat::Top, None, false, fmt) else { continue };
+        l.evals += 1;
+        let (out, log) = drive::verify_logged(&sd, keys::issuer_dec(alg, 0), None, None, fmt);
+        let case = json!({"kind": "c02_iss_pair", "alg": alg.name(), "fmt": fmt.name(), "x": x, "y": x});
+        if !out.is_ok() {
+            l.violation(Violation::new("verify", if out.is_panic() { "panic" } else { "err_where_ok_required" }, "c02_iss_alphabet_control", "iss_alphabet", out.describe(), case.clone()));
+        } else {
+            l.outcome("control_accepted");
+        }
+        if log.calls.is_empty() || log.calls.iter().any(|(iss, _)| iss != x) {
+            l.violation(Violation::new("verify", "wrong_resolver_call", "c02_resolver_iss_argument", "iss_alphabet", format!("token iss {x:?}, resolver asked for {:?}", log.calls), case));
+        }
+        for (yi, y) in names.iter().enumerate() {
+            if xi == yi {
+                continue;
+            }
+            // resolver: x -> key 0, y -> key 1, anything else -> key 1 of another family (never valid)
+            let (xs, ys) = (x.to_string(), y.to_string());
+            let other = if alg == Alg::HS256 { Alg::ES256 } else { Alg::HS256 };
+            let resolver = move |iss: &str, _h: &jsonwebtoken::Header| -> DecodingKey {
+                if iss == xs {
+                    keys::issuer_dec(alg, 0)
+                } else if iss == ys {
+                    keys::issuer_dec(alg, 1)
+                } else {
+                    keys::issuer_dec(other, 1)
+                }
+            };
+            // token claims y, signed by x's key
+            let claims = json!({"iss": y, "exp": gen::EXP, "a": 1});
+            let Out::Ok(sd) = drive::issue(&mut issuer, &claims, &Strat::Top, None, false, fmt) else { continue };
+            l.evals += 1;
+            let out = drive::verify_with(&sd, Box::new(resolver), None, None, fmt);
+            if !out.is_err() {
+                let case = json!({"kind": "c02_iss_pair", "alg": alg.name(), "fmt": fmt.name(), "x": x, "y": y});
+                l.violation(Violation::new("verify", if out.is_panic() { "panic" } else { "ok_where_err_required" }, "c02_iss_confusion_related_names", "iss_alphabet", format!("token claiming {y:?} signed with the key registered for {x:?}: {}", out.describe()), case));
+            } else {
+                l.outcome("iss_confusion_rejected");
+                l.nontrivial += 1;
+            }
+        }
+    }
+}
+
 fn control(b: &Base, l: &mut Local) {
     let pres = b.parts.serialize(b.cfg.fmt);
     for with in [true, false] {
@@ -402,6 +461,7 @@ pub fn run(rep: &Report) {
         }
     }
     par_for(rep, cfs.len(), |i, l| iss_confusion(cfs[i].0, cfs[i].1, l));
+    par_for(rep, cfs.len(), |i, l| iss_pairs(cfs[i].0, cfs[i].1, l));
     rep.scope_done(json!({"scope": "36 bases (3 algs x 2 formats x kb off/on x 3 credentials): controls, payload edits, mixes, signature truncations, alg rewrites (17 values x kept/empty/removed/HMAC-with-public-key/attacker key), 7 other keys, iss confusion", "evaluations": rep.evals()}));
     // character-level sweep: quick on 12 bases (one per alg x fmt x kb), thorough on all 36
     let chosen: Vec<&Base> = bs.iter().collect();
@@ -515,6 +575,11 @@ pub fn replay(case: &Value) -> Vec<Violation> {
                     control(b, &mut l);
                 }
             }
+        }
+        "c02_iss_pair" => {
+            let alg = Alg::from_name(case["alg"].as_str().unwrap());
+            let fmt = if case["fmt"] == "json" { Fmt::Json } else { Fmt::Compact };
+            iss_pairs(alg, fmt, &mut l);
         }
         "c02_iss" => {
             let alg = Alg::from_name(case["alg"].as_str().unwrap());
